@@ -61,7 +61,7 @@ func (c *Ctx) Event(format string, a ...interface{}) {
 }
 
 func (c *Ctx) Count(name string, n int64) { c.C[name] += n }
-func (c *Ctx) Eval()                       { c.C["evaluations"]++ }
+func (c *Ctx) Eval()                      { c.C["evaluations"]++ }
 
 func (c *Ctx) Distinct(set string, h Hash) {
 	s := c.sets[set]
@@ -396,17 +396,17 @@ func writeEvidence(path string, p *Property, tier string, seed uint64, cases int
 		evals = int64(cases)
 	}
 	cov := map[string]interface{}{
-		"evaluations":         evals,
-		"distinct_nontrivial": len(sets["nontrivial"]),
-		"rule":                p.Rule,
-		"samples":             samples,
-		"seeded_cases":        cases,
-		"seeds_used":          []uint64{seed},
-		"runs_per_hour":       int64(float64(evals) / wall * 3600),
-		"cases_per_hour":      int64(float64(cases) / wall * 3600),
-		"simulated_time_ns":   virt,
+		"evaluations":                  evals,
+		"distinct_nontrivial":          len(sets["nontrivial"]),
+		"rule":                         p.Rule,
+		"samples":                      samples,
+		"seeded_cases":                 cases,
+		"seeds_used":                   []uint64{seed},
+		"runs_per_hour":                int64(float64(evals) / wall * 3600),
+		"cases_per_hour":               int64(float64(cases) / wall * 3600),
+		"simulated_time_ns":            virt,
 		"determinism_reexecuted_cases": det,
-		"components":          p.Components,
+		"components":                   p.Components,
 	}
 	faults := map[string]int64{}
 	probes := map[string]int64{}
@@ -445,6 +445,9 @@ func writeEvidence(path string, p *Property, tier string, seed uint64, cases int
 	}
 	if viol != nil {
 		cov["violation"] = viol.Violation
+	}
+	if p.Notes != nil {
+		cov["notes"] = p.Notes()
 	}
 	if len(samples) == 0 {
 		cov["samples"] = []interface{}{"(no sample recorded)"}
